@@ -8,6 +8,10 @@ mod c04;
 mod c05;
 mod c06;
 mod c07;
+mod c08;
+mod c09;
+mod mergecheck;
+mod modgen;
 mod c12;
 mod c13;
 mod gen_builders;
@@ -24,6 +28,8 @@ fn run_property(id: &str, tier: &str) -> Option<Run> {
         "C05" => c05::run(tier),
         "C06" => c06::run(tier),
         "C07" => c07::run(tier),
+        "C08" => c08::run(tier),
+        "C09" => c09::run(tier),
         "C12" => c12::run(tier),
         "C13" => c13::run(tier),
         _ => return None,
@@ -53,6 +59,8 @@ fn main() {
             "C05" => c05::replay(&v["replay"]),
             "C06" => c06::replay(&v["replay"]),
             "C07" => c07::replay(&v["replay"]),
+            "C08" => c08::replay(&v["replay"]),
+            "C09" => c09::replay(&v["replay"]),
             "C12" => c12::replay(&v["replay"]),
             "C13" => c13::replay(&v["replay"]),
             _ => Err(format!("no replay for property {prop}")),
